@@ -28,11 +28,47 @@ Read from the installed NumPy (the SPECIFICATION side: how NumPy spells a call, 
 
 REFUSES (never guesses) a single-`return` function whose returned expression is not one of the understood
 forwarding shapes, a forwarding call with `*args`/`**kwargs`, a namespace name whose definition is not found, and any statement of
-`__array_ufunc__` that is neither a fixed stage with the expected text nor one of the understood decision-carrying shapes.
+`__array_ufunc__` that is neither a fixed stage with the expected meaning nor one of the understood decision-carrying shapes.
+
+WHAT IS PINNED IS THE MEANING, NOT THE SPELLING.  The table must not change (and nothing must be refused) when the source is rewritten
+without changing its behaviour; the following are therefore canonicalised before anything is emitted or compared:
+
+* ORDER.  Rows are sorted (namespace functions by name, private functions by target, class attributes by class and name — a name
+  defined twice in a class body keeps its LAST definition, as Python does); interned names are numbered in sorted order (after the
+  fixed ones); `namespaceAttrs` is sorted.  Nothing observable depends on the order of the functions in a file, of the methods in a
+  class body, of the entries of `__all__` or of the import statements.
+* FORWARDING CALLS (`canon_call`).  When the callee's signature is known (a package function; a method of COO when the receiver was
+  converted with `asCOO`), arguments are put in the callee's own terms: the longest prefix of its positional parameters that the call
+  supplies (positionally or by keyword) is listed positionally, the rest by keyword — `f(x, axis=a)` and `f(x, a)` are the same row.
+  Keywords are sorted by name when at most one argument expression of the call can have an effect (everything else being plain
+  names / literals): Python binds keywords by name, only the evaluation order of the values is observable.  NOT for the calls into
+  NumPy's dispatch (`np.add.reduce(self, out=…, axis=…)`, `self.__array_ufunc__(np.clip, "__call__", self, a_min=…)`): there the order
+  of the keywords is the order of `kwargs`, which NumPy repeats in the message of the TypeError it raises when every operand answers
+  NotImplemented — the differential grid of the harmless-rewrite corpus showed that reordering them changes that message.
+* TEMPORARIES (`inline_temps`).  `t = E` immediately followed by the only use of `t` is read as that use with `E` in place of `t`,
+  provided nothing that could have an effect is evaluated between `E` and the place of `t` (so `result = f(x); return result` is
+  `return f(x)`; `q = f(); r = g(); return q, r` is `return f(), g()`, but `r = g(); q = f(); return q, r` is NOT).  A local bound once
+  from a read-only expression over parameters that are never rebound (`name = func.__name__`) is replaced everywhere.
+* The `try: return f() except NotImplementedError: return NotImplemented` shape may bind the value first and return it from the
+  `else` clause or after the statement; argument validation may be nested ifs as long as every leaf raises.
+* Base classes and the module returned by `__array_namespace__` are resolved through import aliases and dotted paths.
+* THE TWO PROTOCOL METHODS (`__array_function__`, `__array_ufunc__`) are compared with the texts the model was written for by
+  `Match`, which relates two ASTs modulo: renaming of local and comprehension variables (a bijection, function-wide; parameters are API
+  and must keep their names), order of the operands of `and` / `or` when all of them are read-only tests, order of the operands of
+  `==` `!=` `is` `is not` (and `<`/`>` mirrored) when both are read-only, De Morgan / double negation (`nnf`), `any(not P …)` for
+  `not all(P …)`, `if c: A else: B` against `if not c: B else: A`, `if c: A(returns); B` against `if not c: B(returns); A`, an
+  `else` after a body that returns, `with contextlib.suppress(E): S` for `try: S except E: pass`, the order of the arms of an
+  if/elif chain that compares ONE name with different literals, the order of adjacent assignments of literals to different names,
+  `[x] = y` for `(x,) = y`, `tuple(l[::-1])` for `tuple(reversed(l))` on a list built in the same block.  The `nout != 1` branch is
+  read as the set of its PATHS (conditions in negation normal form → what is returned), so any nesting / order of its tests gives the
+  same `ufuncMultiOutSplit`.
+  None of these can hide a change of behaviour: each is an equivalence of Python semantics under the stated side conditions
+  (read-only operands; single binding; adjacency), checked syntactically, and whatever does not fit is refused as before.
 """
 from __future__ import annotations
 
 import ast
+import copy
 import inspect
 from pathlib import Path
 
@@ -254,6 +290,533 @@ def resolve_name(mods, inits, modkey, name, depth=0):
 
 
 # ------------------------------------------------------------------------------------------------
+# equivalences of Python source that the readers below work modulo (each one is an equivalence of the LANGUAGE under the side condition
+# stated with it; nothing here knows anything about pydata/sparse)
+# ------------------------------------------------------------------------------------------------
+
+PURE_CALLS = {"len", "isinstance", "type", "hasattr", "all", "any", "callable"}
+SCOPES = (ast.Lambda, ast.ListComp, ast.SetComp, ast.DictComp, ast.GeneratorExp, ast.FunctionDef, ast.AsyncFunctionDef, ast.ClassDef)
+FLIP = {ast.Eq: ast.NotEq, ast.NotEq: ast.Eq, ast.Is: ast.IsNot, ast.IsNot: ast.Is, ast.In: ast.NotIn, ast.NotIn: ast.In}
+MIRROR = {ast.Lt: ast.Gt, ast.Gt: ast.Lt, ast.LtE: ast.GtE, ast.GtE: ast.LtE, ast.Eq: ast.Eq, ast.NotEq: ast.NotEq, ast.Is: ast.Is, ast.IsNot: ast.IsNot}
+
+
+def is_trivial(e):
+    """evaluating it cannot have an effect and cannot observe one: a name, a literal, an attribute read of such"""
+    return isinstance(e, ast.Name | ast.Constant) or (isinstance(e, ast.Attribute) and is_trivial(e.value))
+
+
+def is_pure(e):
+    """a read-only test: names, literals, attribute reads, comparisons, not/and/or, and a few builtins applied to such (`getattr` only
+    with a default).  Operands of this kind may be evaluated in any order."""
+    if isinstance(e, ast.Name | ast.Constant):
+        return True
+    if isinstance(e, ast.Attribute):
+        return is_pure(e.value)
+    if isinstance(e, ast.UnaryOp) and isinstance(e.op, ast.Not):
+        return is_pure(e.operand)
+    if isinstance(e, ast.BoolOp):
+        return all(is_pure(v) for v in e.values)
+    if isinstance(e, ast.Compare):
+        return is_pure(e.left) and all(is_pure(c) for c in e.comparators)
+    if isinstance(e, ast.Tuple):
+        return all(is_pure(v) for v in e.elts)
+    if isinstance(e, ast.Call) and isinstance(e.func, ast.Name) and not e.keywords:
+        if e.func.id in PURE_CALLS or (e.func.id == "getattr" and len(e.args) == 3):
+            return all(is_pure(a) for a in e.args)
+    if isinstance(e, ast.GeneratorExp) and len(e.generators) == 1:
+        g = e.generators[0]
+        return not g.is_async and is_pure(e.elt) and is_pure(g.iter) and all(is_pure(i) for i in g.ifs)
+    return False
+
+
+def terminates(stmts):
+    return bool(stmts) and isinstance(stmts[-1], ast.Return | ast.Raise | ast.Continue | ast.Break)
+
+
+def nnf(e, neg=False):
+    """negation normal form of a test (a new tree).  `not` is pushed to the atoms; `is`/`is not`, `in`/`not in`, `==`/`!=` absorb it
+    (the values compared with `==` in the code read here are strings, ints, tuples and classes: two-valued equality); `any(P for …)`
+    is written `not all(not P for …)`."""
+    if isinstance(e, ast.UnaryOp) and isinstance(e.op, ast.Not):
+        return nnf(e.operand, not neg)
+    if isinstance(e, ast.BoolOp):
+        op = (ast.Or() if isinstance(e.op, ast.And) else ast.And()) if neg else e.op
+        vals = []
+        for v in e.values:
+            w = nnf(v, neg)
+            vals += w.values if isinstance(w, ast.BoolOp) and type(w.op) is type(op) else [w]
+        return ast.BoolOp(op=op, values=vals)
+    if isinstance(e, ast.Compare) and len(e.ops) == 1 and type(e.ops[0]) in FLIP:
+        return ast.Compare(left=e.left, ops=[FLIP[type(e.ops[0])]()], comparators=e.comparators) if neg else e
+    if (isinstance(e, ast.Call) and isinstance(e.func, ast.Name) and e.func.id in ("all", "any") and len(e.args) == 1 and not e.keywords
+            and isinstance(e.args[0], ast.GeneratorExp)):
+        g = e.args[0]
+        is_any = e.func.id == "any"
+        inner = ast.Call(func=ast.Name(id="all", ctx=ast.Load()), args=[ast.GeneratorExp(elt=nnf(g.elt, is_any), generators=g.generators)], keywords=[])
+        return ast.UnaryOp(op=ast.Not(), operand=inner) if neg != is_any else inner
+    if isinstance(e, ast.Constant) and isinstance(e.value, bool):
+        return ast.Constant(value=(not e.value) if neg else e.value)
+    return ast.UnaryOp(op=ast.Not(), operand=e) if neg else e
+
+
+def _stores(node):
+    """names bound anywhere below `node` (any binding form), with multiplicity"""
+    out = []
+    for n in ast.walk(node):
+        if isinstance(n, ast.Name) and isinstance(n.ctx, ast.Store | ast.Del):
+            out.append(n.id)
+        elif isinstance(n, ast.ExceptHandler) and n.name:
+            out.append(n.name)
+        elif isinstance(n, ast.alias):
+            out.append((n.asname or n.name).split(".")[0])
+        elif isinstance(n, ast.FunctionDef | ast.AsyncFunctionDef | ast.ClassDef):
+            out.append(n.name)
+        elif isinstance(n, ast.arg):
+            out.append(n.arg)
+    return out
+
+
+def _loads(node, name):
+    return [n for n in ast.walk(node) if isinstance(n, ast.Name) and n.id == name and isinstance(n.ctx, ast.Load)]
+
+
+def _blocks(stmts):
+    """every statement list below (and including) `stmts`"""
+    yield stmts
+    for st in stmts:
+        for field in ("body", "orelse", "finalbody"):
+            sub = getattr(st, field, None)
+            if isinstance(sub, list) and sub and isinstance(sub[0], ast.stmt) and not isinstance(st, SCOPES):
+                yield from _blocks(sub)
+        for h in getattr(st, "handlers", []) or []:
+            yield from _blocks(h.body)
+
+
+def _header(st):
+    """the expressions a statement evaluates BEFORE anything else of it runs, exactly once"""
+    if isinstance(st, ast.Return | ast.Expr):
+        return [st.value] if st.value is not None else []
+    if isinstance(st, ast.Assign | ast.AnnAssign | ast.AugAssign):
+        return [st.value] if st.value is not None else []
+    if isinstance(st, ast.If):
+        return [st.test]
+    if isinstance(st, ast.For):
+        return [st.iter]
+    if isinstance(st, ast.Raise):
+        return [x for x in (st.exc,) if x is not None]
+    return []
+
+
+class _Found(Exception):
+    pass
+
+
+def _evaluated_before(expr, target):
+    """(reachable unconditionally?, non-trivial nodes whose evaluation is complete before the Name node `target` is read)"""
+    done = []
+    state = {"conditional": False}
+
+    def visit(n, conditional):
+        if n is target:
+            state["conditional"] = conditional
+            raise _Found
+        if isinstance(n, SCOPES):
+            if any(x is target for x in ast.walk(n)):
+                state["conditional"] = True
+                raise _Found
+            done.append(n)
+            return
+        if isinstance(n, ast.IfExp):
+            visit(n.test, conditional)
+            visit(n.body, True)
+            visit(n.orelse, True)
+        elif isinstance(n, ast.BoolOp):
+            for i, v in enumerate(n.values):
+                visit(v, conditional or i > 0)
+        else:
+            for c in ast.iter_child_nodes(n):
+                if isinstance(c, ast.expr | ast.keyword | ast.Starred | ast.Slice | ast.comprehension):
+                    visit(c, conditional)
+        if isinstance(n, ast.expr) and not is_trivial(n):
+            done.append(n)
+    try:
+        visit(expr, False)
+    except _Found:
+        return (not state["conditional"]), done
+    return False, done
+
+
+class _Subst(ast.NodeTransformer):
+    def __init__(self, name, value):
+        self.name, self.value = name, value
+
+    def visit_Name(self, n):
+        if n.id == self.name and isinstance(n.ctx, ast.Load):
+            return copy.deepcopy(self.value)
+        return n
+
+
+def inline_temps(body, params):
+    """`body` (a function body, already a private copy) with its temporaries read through.
+
+    A. `t = E` immediately followed by a statement that reads `t` in what it evaluates first, exactly once in the whole function, `t`
+       bound nowhere else, the read not inside a conditional sub-expression / lambda / comprehension, and nothing but names, literals
+       and attribute reads evaluated between: the statement with `E` in place of `t`.
+    B. `t = E` at the top level of the function, `t` bound nowhere else, `E` built from literals, parameters that the function never
+       rebinds (and whose attributes it never assigns), attribute reads, `type(·)` and three-argument `getattr(·, 'name', literal)`,
+       every read of `t` in a later top-level statement: `E` in place of every read."""
+    fn_stores = _stores(ast.Module(body=body, type_ignores=[]))
+    frozen = {p for p in params if p not in fn_stores}
+    for n in ast.walk(ast.Module(body=body, type_ignores=[])):
+        if isinstance(n, ast.Attribute) and isinstance(n.ctx, ast.Store) and isinstance(n.value, ast.Name):
+            frozen.discard(n.value.id)
+
+    def stable(e):
+        if isinstance(e, ast.Constant):
+            return True
+        if isinstance(e, ast.Name):
+            return e.id in frozen
+        if isinstance(e, ast.Attribute):
+            return stable(e.value)
+        if isinstance(e, ast.Call) and isinstance(e.func, ast.Name) and not e.keywords:
+            if e.func.id == "type" and len(e.args) == 1:
+                return stable(e.args[0])
+            if e.func.id == "getattr" and len(e.args) == 3:
+                return stable(e.args[0]) and isinstance(e.args[1], ast.Constant) and isinstance(e.args[2], ast.Constant)
+        return False
+
+    changed = True
+    while changed:
+        changed = False
+        whole = ast.Module(body=body, type_ignores=[])
+        counts = {}
+        for s in _stores(whole):
+            counts[s] = counts.get(s, 0) + 1
+        # B
+        for i, st in enumerate(body):
+            if not (isinstance(st, ast.Assign) and len(st.targets) == 1 and isinstance(st.targets[0], ast.Name)):
+                continue
+            t = st.targets[0].id
+            if counts.get(t) != 1 or t in params or not stable(st.value) or isinstance(st.value, ast.Name):
+                continue
+            if any(_loads(x, t) for x in body[:i + 1]) or not any(_loads(x, t) for x in body[i + 1:]):
+                continue
+            sub = _Subst(t, st.value)
+            body[i + 1:] = [sub.visit(x) for x in body[i + 1:]]
+            del body[i]
+            changed = True
+            break
+        if changed:
+            continue
+        # A
+        for blk in _blocks(body):
+            for i in range(len(blk) - 1):
+                st, nxt = blk[i], blk[i + 1]
+                if not (isinstance(st, ast.Assign) and len(st.targets) == 1 and isinstance(st.targets[0], ast.Name)):
+                    continue
+                t = st.targets[0].id
+                if counts.get(t) != 1 or t in params:
+                    continue
+                uses = _loads(whole, t)
+                if len(uses) != 1:
+                    continue
+                for h in _header(nxt):
+                    if not any(x is uses[0] for x in ast.walk(h)):
+                        continue
+                    ok, before = _evaluated_before(h, uses[0])
+                    if ok and not before:
+                        sub = _Subst(t, st.value)
+                        for f, v in ast.iter_fields(nxt):
+                            if v is h:
+                                setattr(nxt, f, sub.visit(h))
+                        del blk[i]
+                        changed = True
+                    break
+                if changed:
+                    break
+            if changed:
+                break
+    return body
+
+
+def _const_key(v):
+    if isinstance(v, ast.Constant):
+        return repr(v.value)
+    if isinstance(v, ast.List | ast.Tuple | ast.Set) and not v.elts:
+        return type(v).__name__
+    if isinstance(v, ast.Dict) and not v.keys:
+        return "Dict"
+    return None
+
+
+class _Norm(ast.NodeTransformer):
+    """structural canonicalisation (independent of the names of locals)"""
+
+    def visit_With(self, n):
+        self.generic_visit(n)
+        if (len(n.items) == 1 and n.items[0].optional_vars is None and isinstance(n.items[0].context_expr, ast.Call)
+                and ast.unparse(n.items[0].context_expr.func) in ("contextlib.suppress", "suppress") and len(n.items[0].context_expr.args) == 1
+                and not n.items[0].context_expr.keywords):
+            h = ast.ExceptHandler(type=n.items[0].context_expr.args[0], name=None, body=[ast.Pass()])
+            return ast.Try(body=n.body, handlers=[h], orelse=[], finalbody=[])
+        return n
+
+    def visit_Assign(self, n):
+        self.generic_visit(n)
+        n.targets = [ast.Tuple(elts=t.elts, ctx=t.ctx) if isinstance(t, ast.List) else t for t in n.targets]
+        return n
+
+    def visit_If(self, n):
+        self.generic_visit(n)
+        n.test = nnf(n.test)
+        return n
+
+    def visit_IfExp(self, n):
+        self.generic_visit(n)
+        n.test = nnf(n.test)
+        return n
+
+    def visit_Compare(self, n):
+        self.generic_visit(n)
+        if (len(n.ops) == 1 and isinstance(n.ops[0], ast.Eq | ast.NotEq) and isinstance(n.left, ast.Constant)
+                and not isinstance(n.comparators[0], ast.Constant) and is_pure(n.comparators[0])):
+            n.left, n.comparators = n.comparators[0], [n.left]     # a literal operand of `==` on the right
+        return n
+
+    def visit_comprehension(self, n):
+        self.generic_visit(n)
+        n.ifs = [nnf(i) for i in n.ifs]
+        return n
+
+
+def _chain(st):
+    """[(test, body)…], else-body of an if/elif chain"""
+    arms, cur = [], st
+    while True:
+        arms.append((cur.test, cur.body))
+        if len(cur.orelse) == 1 and isinstance(cur.orelse[0], ast.If):
+            cur = cur.orelse[0]
+        else:
+            return arms, cur.orelse
+
+
+def _norm_block(stmts):
+    out = []
+    for st in stmts:
+        for field in ("body", "orelse", "finalbody"):
+            sub = getattr(st, field, None)
+            if isinstance(sub, list) and sub and isinstance(sub[0], ast.stmt) and not isinstance(st, SCOPES):
+                setattr(st, field, _norm_block(sub))
+        for h in getattr(st, "handlers", []) or []:
+            h.body = _norm_block(h.body)
+        if isinstance(st, ast.If) and st.orelse:
+            arms, last = _chain(st)
+            keys = []
+            for t, _ in arms:
+                if (isinstance(t, ast.Compare) and len(t.ops) == 1 and isinstance(t.ops[0], ast.Eq) and isinstance(t.left, ast.Name)
+                        and isinstance(t.comparators[0], ast.Constant)):
+                    keys.append((t.left.id, repr(t.comparators[0].value)))
+                else:
+                    keys = None
+                    break
+            if keys and len(arms) > 1 and len({k[0] for k in keys}) == 1 and len({k[1] for k in keys}) == len(keys):
+                # one name compared with different literals: at most one arm runs, whatever the order
+                arms = [a for _, a in sorted(zip(keys, arms, strict=True), key=lambda ka: ka[0])]
+                node = last
+                for t, b in reversed(arms):
+                    node = [ast.If(test=t, body=b, orelse=node)]
+                st = node[0]
+        if isinstance(st, ast.If) and st.orelse and terminates(st.body):
+            # an `else` after a body that does not fall through
+            out.append(ast.If(test=st.test, body=st.body, orelse=[]))
+            out += st.orelse
+            continue
+        out.append(st)
+    # adjacent assignments of literals to different names commute
+    i = 0
+    while i < len(out):
+        j = i
+        names = []
+        while (j < len(out) and isinstance(out[j], ast.Assign) and len(out[j].targets) == 1 and isinstance(out[j].targets[0], ast.Name)
+               and _const_key(out[j].value) is not None and out[j].targets[0].id not in names):
+            names.append(out[j].targets[0].id)
+            j += 1
+        if j - i > 1:
+            out[i:j] = sorted(out[i:j], key=lambda a: _const_key(a.value))
+        i = max(j, i + 1)
+    return out
+
+
+def normalise(body, params):
+    """a function body in canonical form (a new tree): docstring dropped, temporaries read through, `with suppress` as try, tests in
+    negation normal form, no `else` after a returning body, comparison chains on one name and runs of literal assignments sorted"""
+    body = copy.deepcopy(list(_strip_doc(body)))
+    body = inline_temps(body, params)
+    mod = _Norm().visit(ast.Module(body=body, type_ignores=[]))
+    return _norm_block(mod.body)
+
+
+class Match:
+    """structural comparison of a PATTERN (source text the model was written for) with the working tree's code, modulo the equivalences
+    listed in the module docstring.  `plocals`: the local names of the pattern (they may be called anything in the code, consistently);
+    every other name must be the same on both sides."""
+
+    def __init__(self, plocals, reserved=()):
+        self.plocals = set(plocals)
+        self.reserved = set(reserved)
+        self.env, self.rev = {}, {}
+
+    def snap(self):
+        return dict(self.env), dict(self.rev)
+
+    def restore(self, s):
+        self.env, self.rev = dict(s[0]), dict(s[1])
+
+    def attempt(self, f):
+        s = self.snap()
+        if f():
+            return True
+        self.restore(s)
+        return False
+
+    def name(self, p, a):
+        if p in self.plocals:
+            if p in self.env:
+                return self.env[p] == a
+            if a in self.rev or a in self.reserved:
+                return False
+            self.env[p], self.rev[a] = a, p
+            return True
+        return p == a and a not in self.rev
+
+    def perm(self, ps, as_):
+        if len(ps) != len(as_):
+            return False
+        if not ps:
+            return True
+        for i in range(len(as_)):
+            if self.attempt(lambda i=i: self.node(ps[0], as_[i]) and self.perm(ps[1:], as_[:i] + as_[i + 1:])):
+                return True
+        return False
+
+    def seq(self, ps, as_):
+        return len(ps) == len(as_) and all(self.node(p, a) for p, a in zip(ps, as_, strict=True))
+
+    def scoped(self, gens_p, gens_a, rest):
+        """comprehension: its target names are local to it"""
+        if len(gens_p) != len(gens_a):
+            return False
+        targets = {n.id for g in gens_p for n in ast.walk(g.target) if isinstance(n, ast.Name)}
+        saved = {t: (self.env.pop(t, None)) for t in targets}
+        for t, v in saved.items():
+            if v is not None:
+                self.rev.pop(v, None)
+        added = self.plocals | targets
+        old_pl, self.plocals = self.plocals, added
+        ok = all(self.node(gp.iter, ga.iter) and self.node(gp.target, ga.target) and self.seq(gp.ifs, ga.ifs) and gp.is_async == ga.is_async
+                 for gp, ga in zip(gens_p, gens_a, strict=True)) and rest()
+        for t in targets:
+            v = self.env.pop(t, None)
+            if v is not None:
+                self.rev.pop(v, None)
+        for t, v in saved.items():
+            if v is not None:
+                self.env[t], self.rev[v] = v, t
+        self.plocals = old_pl
+        return ok
+
+    def node(self, p, a):
+        if isinstance(p, ast.AST) != isinstance(a, ast.AST):
+            return False
+        if not isinstance(p, ast.AST):
+            if isinstance(p, list):
+                return isinstance(a, list) and (self.block(p, a) if p and isinstance(p[0], ast.stmt) or a and isinstance(a[0], ast.stmt) else self.seq(p, a))
+            return type(p) is type(a) and p == a
+        if type(p) is not type(a):
+            return False
+        if isinstance(p, ast.Name):
+            return self.name(p.id, a.id)
+        if isinstance(p, ast.arg):
+            return self.name(p.arg, a.arg)
+        if isinstance(p, ast.alias):
+            return p.name == a.name and self.name(p.asname or p.name, a.asname or a.name)
+        if isinstance(p, ast.ExceptHandler):
+            return ((p.name is None) == (a.name is None) and (p.name is None or self.name(p.name, a.name))
+                    and ((p.type is None) == (a.type is None)) and (p.type is None or self.node(p.type, a.type)) and self.block(p.body, a.body))
+        if isinstance(p, ast.BoolOp):
+            if type(p.op) is not type(a.op):
+                return False
+            if all(is_pure(v) for v in p.values) and all(is_pure(v) for v in a.values):
+                return self.perm(list(p.values), list(a.values))
+            return self.seq(p.values, a.values)
+        if isinstance(p, ast.Compare) and len(p.ops) == 1 and len(a.ops) == 1:
+            if type(p.ops[0]) is type(a.ops[0]) and self.attempt(lambda: self.node(p.left, a.left) and self.node(p.comparators[0], a.comparators[0])):
+                return True
+            if MIRROR.get(type(p.ops[0])) is type(a.ops[0]) and is_pure(a.left) and is_pure(a.comparators[0]):
+                return self.attempt(lambda: self.node(p.left, a.comparators[0]) and self.node(p.comparators[0], a.left))
+            return False
+        if isinstance(p, ast.GeneratorExp | ast.ListComp | ast.SetComp):
+            return self.scoped(p.generators, a.generators, lambda: self.node(p.elt, a.elt))
+        if isinstance(p, ast.DictComp):
+            return self.scoped(p.generators, a.generators, lambda: self.node(p.key, a.key) and self.node(p.value, a.value))
+        if isinstance(p, ast.If):
+            if self.attempt(lambda: self.node(p.test, a.test) and self.block(p.body, a.body) and self.block(p.orelse, a.orelse)):
+                return True
+            if p.orelse and a.orelse:
+                return self.attempt(lambda: self.node(p.test, nnf(a.test, True)) and self.block(p.body, a.orelse) and self.block(p.orelse, a.body))
+            return False
+        if isinstance(p, ast.IfExp):
+            if self.attempt(lambda: self.node(p.test, a.test) and self.node(p.body, a.body) and self.node(p.orelse, a.orelse)):
+                return True
+            return self.attempt(lambda: self.node(p.test, nnf(a.test, True)) and self.node(p.body, a.orelse) and self.node(p.orelse, a.body))
+        for (fp, vp), (fa, va) in zip(ast.iter_fields(p), ast.iter_fields(a), strict=True):
+            if fp != fa:
+                return False
+            if fp in ("ctx", "type_comment", "kind"):
+                continue
+            if not self.node(vp, va):
+                return False
+        return True
+
+    def block(self, ps, as_):
+        """two statement lists; `if c: A(returns); R(returns)` also matches `if not c: R; A`"""
+        if not ps or not as_:
+            return not ps and not as_
+        p, a = ps[0], as_[0]
+        if self.attempt(lambda: self.node(p, a) and self.block(ps[1:], as_[1:])):
+            return True
+        if (isinstance(p, ast.If) and isinstance(a, ast.If) and not p.orelse and not a.orelse and terminates(p.body) and terminates(a.body)
+                and terminates(ps[1:]) and terminates(as_[1:])):
+            return self.attempt(lambda: self.node(p.test, nnf(a.test, True)) and self.block(p.body, as_[1:]) and self.block(ps[1:], a.body))
+        return False
+
+
+def parse_pattern(src, params):
+    return normalise(ast.parse(src).body, params)
+
+
+def paths(stmts, conds=()):
+    """the ways through a block that consists of ifs and returns only: [(conditions (negation normal form), returned expression)]"""
+    if not stmts:
+        raise Refuse("a path falls off the end of the block")
+    st = stmts[0]
+    if isinstance(st, ast.Return):
+        return [(list(conds), st.value)]
+    if isinstance(st, ast.If):
+        yes = st.body + ([] if terminates(st.body) else stmts[1:])
+        no = st.orelse + ([] if st.orelse and terminates(st.orelse) else stmts[1:])
+        return paths(yes, (*conds, nnf(st.test))) + paths(no, (*conds, nnf(st.test, True)))
+    raise Refuse(f"statement `{ast.unparse(st)[:100]}` is neither an `if` nor a `return`")
+
+
+def conjuncts(conds):
+    out = []
+    for c in conds:
+        out += c.values if isinstance(c, ast.BoolOp) and isinstance(c.op, ast.And) else [c]
+    return out
+
+
+# ------------------------------------------------------------------------------------------------
 # the forwarding shape of one function body
 # ------------------------------------------------------------------------------------------------
 
@@ -285,13 +848,59 @@ def call_args(call, params, who, star=(None, None)):
     return pos, kw
 
 
+def _raises_only(st):
+    """argument validation: an `if` (nested ifs, elif / else arms included) every leaf of which raises"""
+    if isinstance(st, ast.Raise):
+        return True
+    if isinstance(st, ast.If):
+        return all(_raises_only(x) for x in st.body) and all(_raises_only(x) for x in st.orelse)
+    return False
+
+
+def _untemp_try(body):
+    """`try: t = E except X: return Y else: return t` and `try: t = E except X: return Y` + `return t` (nothing else reads or binds `t`)
+    read as `try: return E except X: return Y`: the handler returns, so both returns are reached exactly when `E` did not raise X."""
+    if not body or not isinstance(body[-1], ast.Return | ast.Try):
+        return body
+    whole = ast.Module(body=body, type_ignores=[])
+    for k in (1, 2):
+        if len(body) < k or not isinstance(body[-k], ast.Try):
+            continue
+        tr = body[-k]
+        if not (len(tr.body) == 1 and isinstance(tr.body[0], ast.Assign) and len(tr.body[0].targets) == 1 and isinstance(tr.body[0].targets[0], ast.Name)
+                and not tr.finalbody and all(terminates(h.body) for h in tr.handlers)):
+            continue
+        t = tr.body[0].targets[0].id
+        ret = tr.orelse[0] if (k == 1 and len(tr.orelse) == 1) else (body[-1] if (k == 2 and not tr.orelse) else None)
+        if not (isinstance(ret, ast.Return) and isinstance(ret.value, ast.Name) and ret.value.id == t):
+            continue
+        if _stores(whole).count(t) != 1 or len(_loads(whole, t)) != 1:
+            continue
+        new_try = ast.Try(body=[ast.Return(value=tr.body[0].value)], handlers=tr.handlers, orelse=[], finalbody=[])
+        return body[:len(body) - k] + [new_try]
+    return body
+
+
 def forward_of(fn: ast.FunctionDef, who, modkey, mods, inits, is_method, ufunc_name):
-    """(fwd tuple, dropped params, prelude notes)"""
+    """(fwd tuple, dropped params, prelude notes).  The body is read with its temporaries read through (`inline_temps`); if THAT reading
+    is refused although the body as written is simply an implementation of its own (several statements), it is one."""
+    try:
+        return _forward_of(fn, who, modkey, mods, inits, is_method, ufunc_name, True)
+    except Refuse:
+        r = _forward_of(fn, who, modkey, mods, inits, is_method, ufunc_name, False)
+        if r[0] == ("impl",):
+            return r
+        raise
+
+
+def _forward_of(fn: ast.FunctionDef, who, modkey, mods, inits, is_method, ufunc_name, read_through):
     a = fn.args
     params = [p.arg for p in a.posonlyargs + a.args + a.kwonlyargs]
     star = (a.vararg.arg if a.vararg else None, a.kwarg.arg if a.kwarg else None)
     first = params[0] if params else None
-    body = _strip_doc(fn.body)
+    body = copy.deepcopy(list(_strip_doc(fn.body)))
+    if read_through:
+        body = _untemp_try(inline_temps(body, set(params) | {x for x in star if x}))
     local_imports = {}
     tmp = Mod(modkey, ast.Module(body=[], type_ignores=[]))
     rest, notes = [], []
@@ -309,11 +918,11 @@ def forward_of(fn: ast.FunctionDef, who, modkey, mods, inits, is_method, ufunc_n
                 and isinstance(st.value.args[0], ast.Name) and st.value.args[0].id == st.targets[0].id and st.targets[0].id in params):
             notes.append(f"converts {st.targets[0].id}")
             continue
+        if _raises_only(st):
+            notes.append("validates")
+            continue
         if isinstance(st, ast.If) and not st.orelse and len(st.body) == 1:
             b = st.body[0]
-            if isinstance(b, ast.Raise):
-                notes.append("validates")
-                continue
             if (isinstance(b, ast.Assign) and len(b.targets) == 1 and isinstance(b.targets[0], ast.Name) and b.targets[0].id in params
                     and ast.unparse(b.value) == f"({b.targets[0].id},)"):
                 notes.append(f"normalises {b.targets[0].id}")
@@ -337,6 +946,10 @@ def forward_of(fn: ast.FunctionDef, who, modkey, mods, inits, is_method, ufunc_n
 
     used = {n.id for n in ast.walk(e) if isinstance(n, ast.Name)}
     dropped = [p for p in params if p not in used and p != "self"]
+    if isinstance(e, ast.Call):
+        vals = [a.value if isinstance(a, ast.Starred) else a for a in e.args] + [k.value for k in e.keywords]
+        if sum(1 for v in vals if not (is_trivial(v) or isinstance(v, ast.Lambda))) <= 1:
+            notes.append("args-commute")
     if isinstance(e, ast.Attribute) and isinstance(e.value, ast.Name) and e.value.id == first:
         return ("attr", e.attr), dropped, notes
     if isinstance(e, ast.Compare) and len(e.ops) == 1 and isinstance(e.left, ast.Name) and isinstance(e.comparators[0], ast.Name):
@@ -373,7 +986,7 @@ def forward_of(fn: ast.FunctionDef, who, modkey, mods, inits, is_method, ufunc_n
                 return ("ufuncCall", ufunc_name("np." + f.attr), kw), dropped, notes
         if isinstance(f, ast.Name):
             r = res(f.id)
-            if r is not None and r[0] != "numpy" and any(isinstance(x, ast.Name) and x.id == first for x in e.args):
+            if r is not None and r[0] != "numpy" and any(isinstance(x, ast.Name) and x.id == first for x in list(e.args) + [k.value for k in e.keywords]):
                 pos, kw = call_args(e, params, who, star)
                 return ("func", f"{r[0]}.{r[1]}", pos, kw), dropped, notes
         # any other single `return <expression>` (e.g. `return np.transpose(a.nonzero())`, `return tuple(self.coords)`) is an
@@ -482,6 +1095,8 @@ def describe_fwd(f):
     return "impl"
 
 
+AF_PARAMS = ["self", "func", "types", "args", "kwargs"]
+AF_LOCALS = {"module", "sparse_func", "submodules", "submodule", "method"}
 AF_SHAPE_A = "import sparse as module\nsparse_func = None\ntry:\n    submodules = getattr(func, '__module__', 'numpy').split('.')[1:]\n    for submodule in submodules:\n        module = getattr(module, submodule)\n    sparse_func = getattr(module, func.__name__)\nexcept AttributeError:\n    pass\nelse:\n    return sparse_func(*args, **kwargs)\nwith contextlib.suppress(AttributeError):\n    sparse_func = getattr(type(self), func.__name__)\nif not isinstance(sparse_func, Callable) and len(args) == 1 and (len(kwargs) == 0):\n    try:\n        return getattr(self, func.__name__)\n    except AttributeError:\n        pass\nif sparse_func is None:\n    return NotImplemented\nreturn sparse_func(*args, **kwargs)"
 AF_SHAPE_B = AF_SHAPE_A.replace(
     "else:\n    return sparse_func(*args, **kwargs)\nwith",
@@ -489,8 +1104,10 @@ AF_SHAPE_B = AF_SHAPE_A.replace(
     "        if isinstance(method, Callable) and _binds(method, args, kwargs):\n            return method(*args, **kwargs)\n"
     "    return sparse_func(*args, **kwargs)\nwith")
 BINDS_BODY = "try:\n    inspect.signature(func).bind(*args, **kwargs)\nexcept TypeError:\n    return False\nexcept ValueError:\n    return True\nreturn True"
-# ---- SparseArray.__array_ufunc__, statement by statement (top level, in source order) -----------------------------------------
+# ---- SparseArray.__array_ufunc__, stage by stage (top level, in source order) -------------------------------------------------
 UF_PARAMS = (["self", "ufunc", "method"], "inputs", "kwargs")
+UF_ALL_PARAMS = ["self", "ufunc", "method", "inputs", "kwargs"]
+UF_LOCALS = {"out", "x", "test_args", "test_kwargs", "test_out", "a", "cum_ndim", "inputs_transformed", "inp", "result", "kw"}
 UF_POP_OUT = "out = kwargs.pop('out', None)"
 UF_FOREIGN_OUT = "if out is not None and (not all((isinstance(x, type(self)) for x in out))):\n    return NotImplemented"
 UF_SIGNATURE = ("if getattr(ufunc, 'signature', None) is not None:\n"
@@ -509,11 +1126,37 @@ UF_COMPUTE = ("if method == '__call__':\n    result = elemwise(ufunc, *inputs, *
               "elif method == 'reduce':\n    result = SparseArray._reduce(ufunc, *inputs, **kwargs)\n"
               "else:\n    return NotImplemented")
 UF_RETURN = "return result"
-UF_CONVERT_KW = "kw = {'compressed_axes': out.compressed_axes} if out.format == 'gcxs' and out.ndim >= 2 else {}"
+UF_CONVERT = {
+    "convertFormat true": ("kw = {'compressed_axes': out.compressed_axes} if out.format == 'gcxs' and out.ndim >= 2 else {}\n"
+                           "result = result.asformat(out.format, **kw)"),
+    "convertFormat false": "result = result.asformat(out.format)",
+}
+UF_OUTER = ("method = '__call__'\ncum_ndim = 0\ninputs_transformed = []\n"
+            "for inp in reversed(inputs):\n    inputs_transformed.append(inp[(Ellipsis,) + (None,) * cum_ndim])\n    cum_ndim += inp.ndim\n"
+            "inputs = {last}")
+# the last statement of the `outer` branch: are the operands put back into the caller's order?  (`inputs_transformed` is the list built by
+# the loop above it: its reversed slice holds what `reversed` yields)
+OUTER_LAST = {"tuple(reversed(inputs_transformed))": True, "tuple(inputs_transformed[::-1])": True, "tuple(inputs_transformed)": False}
+UF_TESTS = {"out_given": "out is not None", "out_missing": "out is None", "nout": UF_NOUT_TEST, "outer": "method == 'outer'",
+            "shape": "out.shape != result.shape", "dense": "not isinstance(result, SparseArray)", "type": "type(result) is not type(out)",
+            "call": "method == '__call__'"}
 
-OUTER_PREFIX = ["method = '__call__'", "cum_ndim = 0", "inputs_transformed = []",
-                "for inp in reversed(inputs):\n    inputs_transformed.append(inp[(Ellipsis,) + (None,) * cum_ndim])\n    cum_ndim += inp.ndim"]
-OUTER_LAST = {"inputs = tuple(reversed(inputs_transformed))": True, "inputs = tuple(inputs_transformed)": False}
+
+def _pat(src, params):
+    return parse_pattern(src, params)
+
+
+def _pat_test(src, params):
+    return _pat(f"if {src}:\n    pass", params)[0].test
+
+
+def _reserved(pats, plocals):
+    out = set()
+    for p in pats:
+        for n in ast.walk(ast.Module(body=p, type_ignores=[])):
+            if isinstance(n, ast.Name) and n.id not in plocals:
+                out.add(n.id)
+    return out
 
 
 def _raises_value_error(body):
@@ -521,91 +1164,117 @@ def _raises_value_error(body):
             and isinstance(body[0].exc.func, ast.Name) and body[0].exc.func.id == "ValueError")
 
 
-def read_multi_out(node: ast.If):
-    """the `nout != 1` branch: zero or more `if ufunc is np.<U> and method == '__call__' and out is None: return (np.<A>(*inputs, **kwargs), …)`
-    followed by `return NotImplemented`.  -> [(U, [A, …])].  The operands of every component call must be the caller's own,
-    unchanged and in order (`*inputs, **kwargs`); anything else is refused."""
-    if node.orelse or not node.body or ast.unparse(node.body[-1]) != "return NotImplemented":
-        raise Refuse("__array_ufunc__: the `nout != 1` branch does not end in `return NotImplemented`")
+def read_multi_out(m: Match, stmts, tests):
+    """the `nout != 1` branch, read as the set of its paths: every path ends in `return NotImplemented` or in
+    `return (np.<A>(*inputs, **kwargs), …)`; a path of the second kind must be taken exactly under `ufunc is np.<U> and method == '__call__'
+    and out is None` (further conditions only if they follow from `ufunc is np.<U>`: tests for another ufunc that failed).
+    -> [(U, [A, …])].  The operands of every component call must be the caller's own, unchanged and in order; anything else is refused."""
     split = []
-    for st in node.body[:-1]:
-        if not (isinstance(st, ast.If) and not st.orelse and isinstance(st.test, ast.BoolOp) and isinstance(st.test.op, ast.And)):
-            raise Refuse(f"__array_ufunc__: statement in the `nout != 1` branch not understood: `{ast.unparse(st)[:120]}`")
-        conds = [ast.unparse(v) for v in st.test.values]
-        which = [c for c in conds if c.startswith("ufunc is np.")]
-        if len(which) != 1 or sorted(c for c in conds if c not in which) != ["method == '__call__'", "out is None"]:
-            raise Refuse(f"__array_ufunc__: condition of a multi-output computation not understood: `{ast.unparse(st.test)}`")
-        ret = st.body[0] if len(st.body) == 1 else None
-        if not (isinstance(ret, ast.Return) and isinstance(ret.value, ast.Tuple) and ret.value.elts):
-            raise Refuse(f"__array_ufunc__: a multi-output computation must `return (np.f(*inputs, **kwargs), …)`: `{ast.unparse(st)[:160]}`")
+    try:
+        ps = paths(stmts)
+    except Refuse as e:
+        raise Refuse(f"__array_ufunc__: the `nout != 1` branch: {e}") from None
+    for conds, value in ps:
+        if isinstance(value, ast.Name) and value.id == "NotImplemented":
+            continue
+        if not (isinstance(value, ast.Tuple) and value.elts):
+            raise Refuse(f"__array_ufunc__: the `nout != 1` branch returns `{ast.unparse(value)[:120] if value is not None else None}`: neither NotImplemented "
+                         "nor a tuple `(np.f(*inputs, **kwargs), …)`")
         parts = []
-        for c in ret.value.elts:
+        for c in value.elts:
             if not (isinstance(c, ast.Call) and ast.unparse(c.func).startswith("np.") and [ast.unparse(a) for a in c.args] == ["*inputs"]
                     and [(k.arg, ast.unparse(k.value)) for k in c.keywords] == [(None, "kwargs")]):
                 raise Refuse(f"__array_ufunc__: component `{ast.unparse(c)}` of a multi-output computation is not `np.f(*inputs, **kwargs)`")
             parts.append(ast.unparse(c.func))
-        split.append((which[0][len("ufunc is "):], parts))
+        which, need, extra = [], {"call": False, "out_missing": False}, []
+        for c in conjuncts(conds):
+            if isinstance(c, ast.Compare) and len(c.ops) == 1 and isinstance(c.ops[0], ast.Is) and ast.unparse(c.left) == "ufunc" and ast.unparse(c.comparators[0]).startswith("np."):
+                which.append(ast.unparse(c.comparators[0]))
+            elif m.attempt(lambda c=c: m.node(tests["call"], c)):
+                need["call"] = True
+            elif m.attempt(lambda c=c: m.node(tests["out_missing"], c)):
+                need["out_missing"] = True
+            else:
+                extra.append(c)
+        if len(set(which)) != 1 or not all(need.values()):
+            raise Refuse("__array_ufunc__: condition of a multi-output computation not understood: `" + " and ".join(ast.unparse(c) for c in conds) + "`")
+        for c in extra:
+            # a failed test for ANOTHER ufunc: `ufunc is not np.V or …` follows from `ufunc is np.U`
+            alts = c.values if isinstance(c, ast.BoolOp) and isinstance(c.op, ast.Or) else [c]
+            if not any(isinstance(x, ast.Compare) and len(x.ops) == 1 and isinstance(x.ops[0], ast.IsNot) and ast.unparse(x.left) == "ufunc"
+                       and ast.unparse(x.comparators[0]).startswith("np.") and ast.unparse(x.comparators[0]) != which[0] for x in alts):
+                raise Refuse(f"__array_ufunc__: extra condition `{ast.unparse(c)}` on a multi-output computation")
+        split.append((which[0], parts))
     if len({u for u, _ in split}) != len(split):
-        raise Refuse("__array_ufunc__: the `nout != 1` branch tests one ufunc twice")
-    return split
+        raise Refuse("__array_ufunc__: the `nout != 1` branch computes one ufunc in two ways")
+    return sorted(split)
 
 
-def read_out_steps(node: ast.If):
-    """the `if out is not None:` block AFTER the computation: the list of its statements, each one of the understood steps"""
-    if node.orelse:
-        raise Refuse("__array_ufunc__: the out= block has an else branch")
+def read_out_steps(m: Match, stmts, tests, pats):
+    """the statements of the out= block AFTER the computation: each one of the understood steps, in source order"""
     steps = []
-    for st in node.body:
-        t = ast.unparse(st)
-        if t in ("out, = out", "(out,) = out"):
+    for st in stmts:
+        def test_is(key, st=st):
+            return isinstance(st, ast.If) and not st.orelse and m.attempt(lambda: m.node(tests[key], st.test))
+        if m.attempt(lambda st=st: m.block(pats["unpack"], [st])):
             steps.append("unpack")
-        elif isinstance(st, ast.If) and not st.orelse and ast.unparse(st.test) == "out.shape != result.shape" and _raises_value_error(st.body):
+        elif test_is("shape") and _raises_value_error(st.body):
             steps.append("shapeCheck")
-        elif isinstance(st, ast.If) and not st.orelse and ast.unparse(st.test) == "not isinstance(result, SparseArray)" and _raises_value_error(st.body):
+        elif test_is("dense") and _raises_value_error(st.body):
             steps.append("refuseDense")
-        elif isinstance(st, ast.If) and not st.orelse and ast.unparse(st.test) == "type(result) is not type(out)":
-            body = [ast.unparse(b) for b in st.body]
-            if body == [UF_CONVERT_KW, "result = result.asformat(out.format, **kw)"]:
-                steps.append("convertFormat true")
-            elif body == ["result = result.asformat(out.format)"]:
-                steps.append("convertFormat false")
+        elif test_is("type"):
+            for name in UF_CONVERT:
+                if m.attempt(lambda name=name, st=st: m.block(pats[name], st.body)):
+                    steps.append(name)
+                    break
             else:
                 raise Refuse("__array_ufunc__: the format conversion of the out= block is not the understood `result.asformat(out.format, …)`:\n"
-                             + "\n".join(body)[:300])
-        elif t == "out._make_shallow_copy_of(result)":
+                             + "\n".join(ast.unparse(b) for b in st.body)[:300])
+        elif m.attempt(lambda st=st: m.block(pats["shallow"], [st])):
             steps.append("shallowCopy")
-        elif t == "return out":
+        elif m.attempt(lambda st=st: m.block(pats["return_out"], [st])):
             steps.append("returnOut")
         else:
-            raise Refuse(f"__array_ufunc__: statement of the out= block not understood: `{t[:160]}`")
+            raise Refuse(f"__array_ufunc__: statement of the out= block not understood: `{ast.unparse(st)[:160]}`")
     return steps
 
 
 def read_array_ufunc(uf: ast.FunctionDef, np):
-    """SparseArray.__array_ufunc__ read top-level statement by statement, IN SOURCE ORDER.  The fixed stages must have exactly the text
-    the model `Dispatch.arrayUfunc` was written for; the stages that carry decisions are READ into generated definitions:
-    the `nout != 1` branch (present?, which ufunc is computed as which tuple of component calls), the initialiser of the trial
-    call, the last statement of the `outer` branch, and the statements of the out= block after the computation."""
+    """SparseArray.__array_ufunc__ read stage by stage, IN SOURCE ORDER, on its canonical form (`normalise`) and modulo `Match`.  The
+    fixed stages must MEAN what the model `Dispatch.arrayUfunc` was written for; the stages that carry decisions are READ into generated
+    definitions: the `nout != 1` branch (present?, which ufunc is computed as which tuple of component calls), the initialiser of the
+    trial call, the last statement of the `outer` branch, and the statements of the out= block after the computation."""
     a = uf.args
     if ([p.arg for p in a.args], a.vararg and a.vararg.arg, a.kwarg and a.kwarg.arg) != UF_PARAMS or a.kwonlyargs or a.posonlyargs:
         raise Refuse("__array_ufunc__: parameters changed")
-    body = list(_strip_doc(uf.body))
-    texts = [ast.unparse(st) for st in body]
+    P = UF_ALL_PARAMS
+    body = normalise(uf.body, P)
+    pats = {"pop": _pat(UF_POP_OUT, P), "foreign": _pat(UF_FOREIGN_OUT, P), "signature": _pat(UF_SIGNATURE, P), "compute": _pat(UF_COMPUTE, P),
+            "return": _pat(UF_RETURN, P), "unpack": _pat("(out,) = out", P), "shallow": _pat("out._make_shallow_copy_of(result)", P),
+            "return_out": _pat("return out", P)}
+    pats.update({f"trial {k}": _pat(UF_TRIAL.format(init=k), P) for k in UF_TRIAL_INIT})
+    pats.update({f"outer {k}": _pat(UF_OUTER.format(last=k), P) for k in OUTER_LAST})
+    pats.update({k: _pat(v, P) for k, v in UF_CONVERT.items()})
+    tests = {k: _pat_test(v, P) for k, v in UF_TESTS.items()}
+    m = Match(UF_LOCALS, _reserved(list(pats.values()), UF_LOCALS) | set(P))
 
-    def expect(i, want, what):
-        if i >= len(body) or texts[i] != want:
-            raise Refuse(f"SparseArray.__array_ufunc__: statement {i} is not the understood {what}:\n" + (texts[i][:400] if i < len(body) else "<end of body>"))
-    i = 0
-    expect(i, UF_POP_OUT, "`out = kwargs.pop('out', None)`")
-    i += 1
-    expect(i, UF_FOREIGN_OUT, "foreign-`out` test")
-    i += 1
-    expect(i, UF_SIGNATURE, "generalised-ufunc hand-over")
-    i += 1
+    def text(i, n=400):
+        return ast.unparse(body[i])[:n] if i < len(body) else "<end of body>"
+
+    def expect(i, key, what):
+        k = len(pats[key])
+        if not m.attempt(lambda: m.block(pats[key], body[i:i + k])):
+            raise Refuse(f"SparseArray.__array_ufunc__: statement {i} is not the understood {what}:\n" + text(i))
+        return i + k
+    i = expect(0, "pop", "`out = kwargs.pop('out', None)`")
+    i = expect(i, "foreign", "foreign-`out` test")
+    i = expect(i, "signature", "generalised-ufunc hand-over")
     info = {"multi_guard": False, "multi_split": []}
-    if i < len(body) and isinstance(body[i], ast.If) and ast.unparse(body[i].test) == UF_NOUT_TEST:
+    if i < len(body) and isinstance(body[i], ast.If) and not body[i].orelse and m.attempt(lambda: m.node(tests["nout"], body[i].test)):
+        if not terminates(body[i].body):
+            raise Refuse("__array_ufunc__: the `nout != 1` branch does not end in a return")
         info["multi_guard"] = True
-        for u, parts in read_multi_out(body[i]):
+        for u, parts in read_multi_out(m, body[i].body, tests):
             names = []
             for t in [u] + parts:
                 obj = getattr(np, t[len("np."):], None)
@@ -613,30 +1282,42 @@ def read_array_ufunc(uf: ast.FunctionDef, np):
                     raise Refuse(f"__array_ufunc__: `{t}` in the `nout != 1` branch is not a NumPy ufunc")
                 names.append(obj.__name__)
             info["multi_split"].append((names[0], names[1:]))
+        info["multi_split"].sort()
         i += 1
-    trial = {UF_TRIAL.format(init=k): v for k, v in UF_TRIAL_INIT.items()}
-    if i >= len(body) or texts[i] not in trial:
-        raise Refuse("SparseArray.__array_ufunc__: the trial call of the out= path is not the understood block:\n" + (texts[i][:600] if i < len(body) else ""))
-    info["trial_ones"] = trial[texts[i]]
+    for k, v in UF_TRIAL_INIT.items():
+        if i < len(body) and m.attempt(lambda k=k: m.block(pats[f"trial {k}"], body[i:i + 1])):
+            info["trial_ones"] = v
+            break
+    else:
+        raise Refuse("SparseArray.__array_ufunc__: the trial call of the out= path is not the understood block:\n" + text(i, 600))
     i += 1
     outer = body[i] if i < len(body) else None
-    if not (isinstance(outer, ast.If) and ast.unparse(outer.test) == "method == 'outer'" and not outer.orelse):
+    if not (isinstance(outer, ast.If) and not outer.orelse and m.attempt(lambda: m.node(tests["outer"], outer.test))):
         raise Refuse("__array_ufunc__: the `outer` branch was not found where the model expects it")
-    otext = [ast.unparse(st) for st in outer.body]
-    if otext[:-1] != OUTER_PREFIX or otext[-1] not in OUTER_LAST:
-        raise Refuse("__array_ufunc__: the `outer` branch is not the understood reverse walk that adds trailing axes:\n" + "\n".join(otext)[:400])
-    info["outer_final_reverse"] = OUTER_LAST[otext[-1]]
+    for k, v in OUTER_LAST.items():
+        if m.attempt(lambda k=k: m.block(pats[f"outer {k}"], outer.body)):
+            info["outer_final_reverse"] = v
+            break
+    else:
+        raise Refuse("__array_ufunc__: the `outer` branch is not the understood reverse walk that adds trailing axes:\n"
+                     + "\n".join(ast.unparse(st) for st in outer.body)[:400])
     i += 1
-    expect(i, UF_COMPUTE, "`__call__` -> elemwise / `reduce` -> _reduce / else NotImplemented")
-    i += 1
+    i = expect(i, "compute", "`__call__` -> elemwise / `reduce` -> _reduce / else NotImplemented")
     post = body[i] if i < len(body) else None
-    if not (isinstance(post, ast.If) and ast.unparse(post.test) == "out is not None"):
+    if isinstance(post, ast.If) and not post.orelse and m.attempt(lambda: m.node(tests["out_given"], post.test)):
+        # if out is not None: <steps>   return result
+        info["out_steps"] = read_out_steps(m, post.body, tests, pats)
+        i = expect(i + 1, "return", "`return result`")
+        if i != len(body):
+            raise Refuse(f"SparseArray.__array_ufunc__: unexpected statements after `return result`: {text(i, 200)}")
+    elif (isinstance(post, ast.If) and not post.orelse and m.attempt(lambda: m.node(tests["out_missing"], post.test))
+          and m.attempt(lambda: m.block(pats["return"], post.body))):
+        # if out is None: return result   <steps, which must not fall off the end of the function>
+        info["out_steps"] = read_out_steps(m, body[i + 1:], tests, pats)
+        if not info["out_steps"] or info["out_steps"][-1] != "returnOut":
+            raise Refuse("__array_ufunc__: the out= block written after `if out is None: return result` does not end in `return out`")
+    else:
         raise Refuse("__array_ufunc__: the out= block after the computation was not found")
-    info["out_steps"] = read_out_steps(post)
-    i += 1
-    expect(i, UF_RETURN, "`return result`")
-    if i + 1 != len(body):
-        raise Refuse(f"SparseArray.__array_ufunc__: unexpected statements after `return result`: {texts[i + 1][:200]}")
     return info
 
 
@@ -644,26 +1325,28 @@ UFUNC_DEFAULT = {"multi_guard": False, "multi_split": [], "trial_ones": False, "
 
 
 def lookup_algorithm(repo: Path):
-    """The hand-written Lean model `Dispatch.nep18` / `Dispatch.arrayUfunc` follows the TEXT of SparseArray.__array_function__ and
-    __array_ufunc__.  This pins that text: it must be one of the shapes the model was written for (the second one adds the
-    'does the call bind to the namespace function, else try the method' step); anything else is refused, so that a changed lookup
-    algorithm cannot be 'proved' against a stale model."""
+    """The hand-written Lean model `Dispatch.nep18` / `Dispatch.arrayUfunc` follows the MEANING of SparseArray.__array_function__ and
+    __array_ufunc__.  This pins it: the method must be — modulo the equivalences of `Match` / `normalise` — one of the two texts the
+    model was written for (the second one adds the 'does the call bind to the namespace function, else try the method' step); anything
+    else is refused, so that a changed lookup algorithm cannot be 'proved' against a stale model."""
     tree = ast.parse((repo / PKG / "_sparse_array.py").read_text())
     cls = next(n for n in tree.body if isinstance(n, ast.ClassDef) and n.name == "SparseArray")
     fn = next(n for n in cls.body if isinstance(n, ast.FunctionDef) and n.name == "__array_function__")
-    if [a.arg for a in fn.args.args] != ["self", "func", "types", "args", "kwargs"]:
+    if [a.arg for a in fn.args.args] != AF_PARAMS or fn.args.vararg or fn.args.kwarg or fn.args.kwonlyargs or fn.args.posonlyargs:
         raise Refuse("__array_function__: parameters changed")
-    text = "\n".join(ast.unparse(st) for st in _strip_doc(fn.body))
-    if text == AF_SHAPE_A:
-        fallback = False
-    elif text == AF_SHAPE_B:
+    body = normalise(fn.body, AF_PARAMS)
+    pa, pb = _pat(AF_SHAPE_A, AF_PARAMS), _pat(AF_SHAPE_B, AF_PARAMS)
+    reserved = _reserved([pa, pb], AF_LOCALS) | set(AF_PARAMS)
+    if Match(AF_LOCALS, reserved).block(pa, body):
+        return False
+    if Match(AF_LOCALS, reserved).block(pb, body):
         helper = next((n for n in tree.body if isinstance(n, ast.FunctionDef) and n.name == "_binds"), None)
-        if helper is None or "\n".join(ast.unparse(st) for st in _strip_doc(helper.body)) != BINDS_BODY or [a.arg for a in helper.args.args] != ["func", "args", "kwargs"]:
+        hp = ["func", "args", "kwargs"]
+        if (helper is None or [a.arg for a in helper.args.args] != hp
+                or not Match(set(), {"inspect", "TypeError", "ValueError"} | set(hp)).block(_pat(BINDS_BODY, hp), normalise(helper.body, hp))):
             raise Refuse("__array_function__ uses _binds, whose body is not the understood `inspect.signature(func).bind(*args, **kwargs)` test")
-        fallback = True
-    else:
-        raise Refuse("SparseArray.__array_function__ is not one of the two lookup algorithms the model `Dispatch.nep18` was written for")
-    return fallback
+        return True
+    raise Refuse("SparseArray.__array_function__ is not one of the two lookup algorithms the model `Dispatch.nep18` was written for")
 
 
 def ufunc_algorithm(repo: Path, np):
@@ -768,7 +1451,7 @@ def generate(repo):
             continue
         support = any(isinstance(d, ast.Name) and d.id == "_support_numpy" for d in fn.decorator_list)
         namespace.append((name, "function", who))
-        entries.append(dict(op=name, owner="sparse", kind="function", target=who, sig=sig_of(fn), fwd=fwd, dropped=dropped, support=support))
+        entries.append(dict(op=name, owner="sparse", kind="function", target=who, sig=sig_of(fn), fwd=fwd, dropped=dropped, support=support, notes=notes))
     for n, k in sorted(top_extra.items()):
         if n not in {x[0] for x in namespace}:
             namespace.append((n, k, f"sparse.{n}"))
@@ -781,17 +1464,31 @@ def generate(repo):
         fn = mods[mk].funcs.get(dn)
         if fn is None:
             return
-        fwd, dropped, _ = forward_of(fn, target, mk, mods, inits, False, ufunc_name)
-        entries.append(dict(op=dn, owner="private", kind="function", target=target, sig=sig_of(fn), fwd=fwd, dropped=dropped, support=False))
+        fwd, dropped, notes = forward_of(fn, target, mk, mods, inits, False, ufunc_name)
+        entries.append(dict(op=dn, owner="private", kind="function", target=target, sig=sig_of(fn), fwd=fwd, dropped=dropped, support=False, notes=notes))
 
     # classes
     class_info = {}
     for mk, m in mods.items():
+        # names of this module that are other names for a class (`from x import C as D`, `import a.b` … `a.b.C`)
+        renamed = {}
+        for n in ast.walk(m.tree):
+            if isinstance(n, ast.ImportFrom):
+                for a in n.names:
+                    if a.asname:
+                        renamed[a.asname] = a.name
         for cn, c in m.classes.items():
             if cn not in ARRAY_CLASSES:
                 continue
-            bases = [ast.unparse(b) for b in c.bases]
-            attrs, inst = [], set()
+            bases = []
+            for b in c.bases:
+                if isinstance(b, ast.Name):
+                    bases.append(renamed.get(b.id, b.id))
+                elif isinstance(b, ast.Attribute):
+                    bases.append(b.attr)      # `np.lib.mixins.NDArrayOperatorsMixin`: the class is named by the last component
+                else:
+                    bases.append(ast.unparse(b))
+            current, inst = {}, set()      # attribute -> its entry (a later definition of the same name replaces the earlier one, as in Python)
             for s in c.body:
                 if isinstance(s, ast.FunctionDef):
                     decos = [ast.unparse(d) for d in s.decorator_list]
@@ -807,27 +1504,29 @@ def generate(repo):
                             add_private(fwd[1])
                         except Refuse as e:
                             refusals.append(f"table dispatchTable: {e}")
-                    attrs.append(dict(op=s.name, owner=cn, kind=kind, target=who, sig=sig_of(s, drop_first=kind in ("method", "property", "classmethod")),
-                                      fwd=fwd, dropped=dropped, support=False))
+                    current[s.name] = dict(op=s.name, owner=cn, kind=kind, target=who, sig=sig_of(s, drop_first=kind in ("method", "property", "classmethod")),
+                                           fwd=fwd, dropped=dropped, support=False, notes=notes)
                     for n in ast.walk(s):
                         if isinstance(n, ast.Attribute) and isinstance(n.ctx, ast.Store) and isinstance(n.value, ast.Name) and n.value.id == "self":
                             inst.add(n.attr)
                 elif isinstance(s, ast.Assign) and len(s.targets) == 1 and isinstance(s.targets[0], ast.Name):
                     t = s.targets[0].id
                     if isinstance(s.value, ast.Name):
-                        src = next((a for a in attrs if a["op"] == s.value.id), None)
-                        if src is not None:
-                            attrs.append(dict(src, op=t))
+                        if s.value.id in current:
+                            current[t] = dict(current[s.value.id], op=t)
                             continue
                         r = resolve_name(mods, inits, mk, s.value.id)
                         if r is not None and r[1] in mods.get(r[0], Mod("", ast.Module(body=[], type_ignores=[]))).funcs:
                             fn = mods[r[0]].funcs[r[1]]
-                            attrs.append(dict(op=t, owner=cn, kind="method", target=f"{r[0]}.{r[1]}", sig=sig_of(fn, drop_first=True),
-                                              fwd=("impl",), dropped=[], support=False))
+                            current[t] = dict(op=t, owner=cn, kind="method", target=f"{r[0]}.{r[1]}", sig=sig_of(fn, drop_first=True),
+                                              fwd=("impl",), dropped=[], support=False, notes=[])
                             continue
-                    attrs.append(dict(op=t, owner=cn, kind="data", target=f"{cn}.{t}", sig=None, fwd=("impl",), dropped=[], support=False))
+                    current[t] = dict(op=t, owner=cn, kind="data", target=f"{cn}.{t}", sig=None, fwd=("impl",), dropped=[], support=False, notes=[])
+            attrs = [current[k] for k in sorted(current)]
             class_info[cn] = dict(bases=bases, attrs=attrs, inst=sorted(inst), mod=mk)
-            entries += attrs
+    for cn in ARRAY_CLASSES:
+        if cn in class_info:
+            entries += class_info[cn]["attrs"]
 
     def mro(cn):
         out, todo = [], [cn]
@@ -844,9 +1543,9 @@ def generate(repo):
         for s in mods["_sparse_array"].classes["SparseArray"].body:
             if isinstance(s, ast.FunctionDef) and s.name == "__array_namespace__":
                 last = _strip_doc(s.body)[-1]
-                imports = [a.name for n in s.body if isinstance(n, ast.Import) for a in n.names]
+                imports = {a.asname or a.name: a.name for n in s.body if isinstance(n, ast.Import) for a in n.names}
                 if isinstance(last, ast.Return) and isinstance(last.value, ast.Name) and last.value.id in imports:
-                    ans = last.value.id
+                    ans = imports[last.value.id]
         if ans is None:
             raise Refuse("SparseArray.__array_namespace__ does not end in `import <module>` … `return <module>`")
     except (KeyError, Refuse) as e:
@@ -896,122 +1595,179 @@ def generate(repo):
                     pass
     gufuncs = sorted(n for n in dir(np) if isinstance(getattr(np, n), np.ufunc) and getattr(np, n).signature is not None)
 
-    global IN
-    IN = Interner()
-    for f in FIXED:
-        IN(f)
-    body = ["def dispatchTable : List Entry := ["]
-    rows = []
+    # ---- canonical form of the forwarding calls, canonical order of the rows
+    def callee_sig(e):
+        f = e["fwd"]
+        if f[0] == "func":
+            t = next((x for x in entries if x["owner"] in ("sparse", "private") and x["target"] == f[1]), None)
+            if t is not None:
+                return t["sig"]
+            mk_, dn_ = f[1].rsplit(".", 1)
+            fn_ = mods[mk_].funcs.get(dn_) if mk_ in mods else None
+            return sig_of(fn_) if fn_ is not None else None
+        if f[0] == "method" and e["owner"] in ("sparse", "private") and e["sig"]:
+            own = e["sig"]["posonly"] + e["sig"]["pos"]
+            if own and f"converts {own[0]}" in e.get("notes", []):      # the receiver is a COO (asCOO / _validate_coo_input return one or raise)
+                for c in mro("COO"):
+                    t = next((x for x in class_info.get(c, {}).get("attrs", []) if x["op"] == f[1]), None)
+                    if t is not None:
+                        return t["sig"] if t["kind"] == "method" else None
+        return None
+
+    def canon_call(e):
+        """the forwarding call in the callee's own terms; only when the order of evaluation of its arguments cannot be observed"""
+        f = e["fwd"]
+        if f[0] not in ("method", "func", "ufuncReduce", "ufuncCall") or "args-commute" not in e.get("notes", []):
+            return f
+        if f[0] in ("ufuncReduce", "ufuncCall"):
+            # a call INTO NumPy's dispatch: the order of its keywords is the order of `kwargs` in `__array_ufunc__`, and NumPy repeats it in
+            # the TypeError it raises when every operand answers NotImplemented — observable, so it is part of the row
+            return f
+        pos, kw = list(f[2]), list(f[3])
+        sg = callee_sig(e)
+        if sg is not None and not any(x[0] == "star" for x in pos) and len(pos) <= len(sg["posonly"] + sg["pos"]) and len({k for k, _ in kw}) == len(kw):
+            positional = sg["posonly"] + sg["pos"]
+            kwd = dict(kw)
+            new_pos = list(pos)
+            for prm in positional[len(pos):]:
+                if prm in kwd and prm not in sg["posonly"]:
+                    new_pos.append(kwd.pop(prm))
+                else:
+                    break
+            pos, kw = new_pos, [(k, v) for k, v in kw if k in kwd]
+        return (f[0], f[1], pos, sorted(kw, key=lambda kv: (kv[0] == "**", kv[0])))
+
     for e in entries:
-        rows.append(f"  -- {e['owner']}.{e['op']}{describe_sig(e['sig'])}  [{e['kind']} {e['target']}]  ->  {describe_fwd(e['fwd'])}"
-                    + (f"   DROPS {e['dropped']}" if e['dropped'] else "") + "\n"
-                    f"  {{ op := {nm(e['op'])}, owner := {nm(e['owner'])}, kind := {lean_kind(e['kind'])}, target := {nm(e['target'])},\n"
-                    f"    sig := {lean_sig(e['sig'])},\n    fwd := {lean_fwd(e['fwd'])}, dropped := {lean_list(e['dropped'])}, "
-                    f"supportNumpy := {'true' if e['support'] else 'false'} }}")
-    body.append(",\n".join(rows))
-    body.append("]\n")
-    # indexes (row numbers into dispatchTable); Props/C17 proves that they are exactly what the table and the MRO say
-    ns_index = [(e["op"], i) for i, e in enumerate(entries) if e["owner"] == "sparse"]
-    target_index, seen_t = [], set()
-    for i, e in enumerate(entries):
-        if e["owner"] in ("sparse", "private") and e["target"] not in seen_t:
-            seen_t.add(e["target"])
-            target_index.append((e["target"], i))
-    class_index = []
-    for c in ARRAY_CLASSES:
-        if c not in class_info:
-            continue
-        rows_c, seen_c = [], set()
-        for k in mro(c):
-            for i, e in enumerate(entries):
-                if e["owner"] == k and e["op"] not in seen_c:
-                    seen_c.add(e["op"])
-                    rows_c.append((e["op"], i))
-        class_index.append((c, rows_c))
-    body.append("/-- name of the namespace ↦ row of `dispatchTable` -/")
-    body.append("def nsIndex : List (Name × Nat) := [" + ", ".join(f"({nm(o)}, {i})" for o, i in ns_index) + "]\n")
-    body.append("/-- module-qualified package function ↦ row of `dispatchTable` (first row defining it) -/")
-    body.append("def targetIndex : List (Name × Nat) := [" + ", ".join(f"({nm(o)}, {i})" for o, i in target_index) + "]\n")
-    body.append("/-- class ↦ (attribute ↦ row of `dispatchTable`), flattened along the MRO, first definition wins -/")
-    body.append("def classIndex : List (Name × List (Name × Nat)) := [\n  " + ",\n  ".join(
-        f"({nm(c)}, [" + ", ".join(f"({nm(o)}, {i})" for o, i in rows_c) + "])" for c, rows_c in class_index) + "]\n")
-    body.append("/-- attributes of the module `sparse` (numba backend): name, kind, definition -/")
-    body.append("def namespaceAttrs : List (Name × Kind × Name) := [\n  " + ",\n  ".join(
-        f"({nm(n)}, {lean_kind(k)}, {nm(t)}) /- {n} -/" for n, k, t in namespace) + "]\n")
-    body.append("/-- method resolution order of the array classes (class bodies read from the source; `NDArrayOperatorsMixin` is NumPy's) -/")
-    body.append("def classMro : List (Name × List Name) := [" + ", ".join(
-        f"({nm(c)}, {lean_list(mro(c))})" for c in ARRAY_CLASSES if c in class_info) + "]\n")
-    body.append("/-- attributes assigned on `self` in the class bodies (instance attributes, invisible to `getattr(type(self), …)`) -/")
-    body.append("def instanceAttrs : List (Name × List Name) := [" + ", ".join(
-        f"({nm(c)}, {lean_list(class_info[c]['inst'])})" for c in ARRAY_CLASSES if c in class_info) + "]\n")
+        e["fwd"] = canon_call(e)
+    entries = (sorted((e for e in entries if e["owner"] == "sparse"), key=lambda e: e["op"])
+               + sorted((e for e in entries if e["owner"] == "private"), key=lambda e: e["target"])
+               + [e for e in entries if e["owner"] not in ("sparse", "private")])
+    namespace.sort(key=lambda x: x[0])
+
     try:
         fallback = lookup_algorithm(repo)
     except (Refuse, StopIteration) as e:
         refusals.append(f"table dispatchTable: {e}")
         fallback = False
-    body.append("/-- does `__array_function__` hand a call that does not bind to the namespace function's signature to the method of the\n"
-                "same name (`_binds`)?  (false: the namespace function is called whatever the arguments are) -/")
-    body.append(f"def nep18BindFallback : Bool := {'true' if fallback else 'false'}\n")
     try:
         ufi = ufunc_algorithm(repo, np)
     except (Refuse, StopIteration) as e:
         refusals.append(f"table dispatchTable: {e}")
         ufi = dict(UFUNC_DEFAULT)
-    body.append("/-- the `outer` branch of `__array_ufunc__` walks the inputs in reverse (each gets as many trailing new axes as the inputs after it\n"
-                "have dimensions); does it put them back into the caller's order before the element-wise call? -/")
-    body.append(f"def outerFinalReverse : Bool := {'true' if ufi['outer_final_reverse'] else 'false'}\n")
-    body.append("/-- does `__array_ufunc__` test `getattr(ufunc, 'nout', 1) != 1` (after the foreign-`out` test and the generalised-ufunc hand-over,\n"
-                "before anything is computed) and end that branch in `return NotImplemented`?  (false: a ufunc with several results goes on to the\n"
-                "element-wise machinery like any other) -/")
-    body.append(f"def ufuncMultiOutGuard : Bool := {'true' if ufi['multi_guard'] else 'false'}\n")
-    body.append("/-- inside that branch: ufunc ↦ the ufuncs whose results, in this order, make up the returned tuple.  Read from\n"
-                "`if ufunc is np.<u> and method == '__call__' and out is None: return (np.<a>(*inputs, **kwargs), np.<b>(*inputs, **kwargs))`:\n"
-                "only for the method `__call__`, only without `out=`, and every component is called with the caller's operands and keywords\n"
-                "unchanged and in the caller's order (the extractor refuses any other argument list) -/")
-    body.append("def ufuncMultiOutSplit : List (Name × List Name) := [" + ", ".join(
-        f"({nm(u)}, {lean_list(parts)}) /- {u} -> {', '.join(parts)} -/" for u, parts in ufi["multi_split"]) + "]\n")
-    body.append("/-- the first argument of the trial call on the out= path is built with `np.ones` (true) or `np.empty` (false: uninitialised memory) -/")
-    body.append(f"def ufuncOutTrialOnes : Bool := {'true' if ufi['trial_ones'] else 'false'}\n")
-    body.append("/-- the statements of the `if out is not None:` block after the computation, in source order -/")
-    body.append("def ufuncOutSteps : List OutStep := [" + ", ".join("." + st for st in ufi["out_steps"]) + "]\n")
-    multi_out = sorted(n for n in dir(np) if isinstance(getattr(np, n), np.ufunc) and getattr(np, n).nout != 1)
-    multi_out = sorted({getattr(np, n).__name__ for n in multi_out})
-    body.append("/-- NumPy's ufuncs with more than one result (`ufunc.nout != 1`) -/")
-    body.append(f"def multiOutUfuncs : List Name := {lean_list(multi_out)}\n")
-    body.append("/-- what `x.__array_namespace__()` returns -/")
-    body.append(f"def arrayNamespaceModule : Name := {nm(ans)}\n")
-    body.append("/-- NumPy's operator mixin: special method, ufunc it calls, role (forward: ufunc(self, other); reflected: ufunc(other, self)) -/")
-    body.append("def operatorTable : List (Name × Name × Name) := [\n  " + ",\n  ".join(
-        f"({nm(a)}, {nm(b)}, {nm(c)}) /- {a} {b} {c} -/" for a, b, c in operators) + "]\n")
-    body.append("/-- ufuncs with a core signature (generalised ufuncs): `__array_ufunc__` hands them to `__array_function__` -/")
-    body.append(f"def gufuncs : List Name := {lean_list(gufuncs)}\n")
-    body.append("/-- every NumPy function that dispatches through `__array_function__`: public spelling, module path of `func.__module__`\n"
-                "(after the leading `numpy`), `func.__name__` -/")
-    body.append("def numpyFunctions : List (Name × List Name × Name) := [\n  " + ",\n  ".join(
-        f"({nm(p)}, {lean_list(m[1:])}, {nm(n)}) /- {p} -/" for p, m, n in np_funcs) + "]\n")
-    body.append("/-- NumPy's own signature (the caller's vocabulary) of the functions the library answers to: public spelling, module path,\n"
-                "`__name__`, signature -/")
-    body.append("def numpySigs : List (Name × List Name × Name × Sig) := [\n  " + ",\n  ".join(
-        f"({nm(p)}, [], {nm(n)}, {lean_sig(sg)}) /- {p}{describe_sig(sg)} -/" for p, n, sg in np_sigs) + "]\n")
-    # names the model / the theorems mention
-    wanted = FIXED + ["numpy.var", "numpy.std", "numpy.sum", "numpy.clip", "numpy.median", "numpy.transpose", "numpy.shape", "numpy.ndim",
-                      "var", "std", "sum", "ddof", "correction", "axis", "matmul", "dot", "clip", "add", "__matmul__", "__rmatmul__",
-                      "__add__", "__radd__", "SparseArray.var", "_common.matmul", "shape", "ndim", "transpose", "None",
-                      "divmod", "floor_divide", "remainder", "modf", "frexp", "__divmod__", "__rdivmod__", "__floordiv__", "__rfloordiv__",
-                      "__mod__", "__rmod__"]
-    for w in wanted:
-        IN(w)
-    consts = []
-    seen = set()
-    for w in wanted:
-        ident = "nm_" + "".join(ch if ch.isalnum() else "_" for ch in w.replace("**", "starstar"))
-        if ident in seen:
-            continue
-        seen.add(ident)
-        consts.append(f"def {ident} : Name := {IN(w)}  -- {w}")
-    out = [PRELUDE, "/-- id ↦ text -/", "def names : List String := [\n  " + ",\n  ".join(
-        ", ".join(lean_str(x) for x in IN.names[i:i + 8]) for i in range(0, len(IN.names), 8)) + "]\n",
-        "\n".join(consts) + "\n"] + body
+
+    def render():
+        body = ["def dispatchTable : List Entry := ["]
+        rows = []
+        for e in entries:
+            rows.append(f"  -- {e['owner']}.{e['op']}{describe_sig(e['sig'])}  [{e['kind']} {e['target']}]  ->  {describe_fwd(e['fwd'])}"
+                        + (f"   DROPS {e['dropped']}" if e['dropped'] else "") + "\n"
+                        f"  {{ op := {nm(e['op'])}, owner := {nm(e['owner'])}, kind := {lean_kind(e['kind'])}, target := {nm(e['target'])},\n"
+                        f"    sig := {lean_sig(e['sig'])},\n    fwd := {lean_fwd(e['fwd'])}, dropped := {lean_list(e['dropped'])}, "
+                        f"supportNumpy := {'true' if e['support'] else 'false'} }}")
+        body.append(",\n".join(rows))
+        body.append("]\n")
+        # indexes (row numbers into dispatchTable); Props/C17 proves that they are exactly what the table and the MRO say
+        ns_index = [(e["op"], i) for i, e in enumerate(entries) if e["owner"] == "sparse"]
+        target_index, seen_t = [], set()
+        for i, e in enumerate(entries):
+            if e["owner"] in ("sparse", "private") and e["target"] not in seen_t:
+                seen_t.add(e["target"])
+                target_index.append((e["target"], i))
+        class_index = []
+        for c in ARRAY_CLASSES:
+            if c not in class_info:
+                continue
+            rows_c, seen_c = [], set()
+            for k in mro(c):
+                for i, e in enumerate(entries):
+                    if e["owner"] == k and e["op"] not in seen_c:
+                        seen_c.add(e["op"])
+                        rows_c.append((e["op"], i))
+            class_index.append((c, rows_c))
+        body.append("/-- name of the namespace ↦ row of `dispatchTable` -/")
+        body.append("def nsIndex : List (Name × Nat) := [" + ", ".join(f"({nm(o)}, {i})" for o, i in ns_index) + "]\n")
+        body.append("/-- module-qualified package function ↦ row of `dispatchTable` (first row defining it) -/")
+        body.append("def targetIndex : List (Name × Nat) := [" + ", ".join(f"({nm(o)}, {i})" for o, i in target_index) + "]\n")
+        body.append("/-- class ↦ (attribute ↦ row of `dispatchTable`), flattened along the MRO, first definition wins -/")
+        body.append("def classIndex : List (Name × List (Name × Nat)) := [\n  " + ",\n  ".join(
+            f"({nm(c)}, [" + ", ".join(f"({nm(o)}, {i})" for o, i in rows_c) + "])" for c, rows_c in class_index) + "]\n")
+        body.append("/-- attributes of the module `sparse` (numba backend): name, kind, definition -/")
+        body.append("def namespaceAttrs : List (Name × Kind × Name) := [\n  " + ",\n  ".join(
+            f"({nm(n)}, {lean_kind(k)}, {nm(t)}) /- {n} -/" for n, k, t in namespace) + "]\n")
+        body.append("/-- method resolution order of the array classes (class bodies read from the source; `NDArrayOperatorsMixin` is NumPy's) -/")
+        body.append("def classMro : List (Name × List Name) := [" + ", ".join(
+            f"({nm(c)}, {lean_list(mro(c))})" for c in ARRAY_CLASSES if c in class_info) + "]\n")
+        body.append("/-- attributes assigned on `self` in the class bodies (instance attributes, invisible to `getattr(type(self), …)`) -/")
+        body.append("def instanceAttrs : List (Name × List Name) := [" + ", ".join(
+            f"({nm(c)}, {lean_list(class_info[c]['inst'])})" for c in ARRAY_CLASSES if c in class_info) + "]\n")
+        body.append("/-- does `__array_function__` hand a call that does not bind to the namespace function's signature to the method of the\n"
+                    "same name (`_binds`)?  (false: the namespace function is called whatever the arguments are) -/")
+        body.append(f"def nep18BindFallback : Bool := {'true' if fallback else 'false'}\n")
+        body.append("/-- the `outer` branch of `__array_ufunc__` walks the inputs in reverse (each gets as many trailing new axes as the inputs after it\n"
+                    "have dimensions); does it put them back into the caller's order before the element-wise call? -/")
+        body.append(f"def outerFinalReverse : Bool := {'true' if ufi['outer_final_reverse'] else 'false'}\n")
+        body.append("/-- does `__array_ufunc__` test `getattr(ufunc, 'nout', 1) != 1` (after the foreign-`out` test and the generalised-ufunc hand-over,\n"
+                    "before anything is computed) and end that branch in `return NotImplemented`?  (false: a ufunc with several results goes on to the\n"
+                    "element-wise machinery like any other) -/")
+        body.append(f"def ufuncMultiOutGuard : Bool := {'true' if ufi['multi_guard'] else 'false'}\n")
+        body.append("/-- inside that branch: ufunc ↦ the ufuncs whose results, in this order, make up the returned tuple.  Read from\n"
+                    "`if ufunc is np.<u> and method == '__call__' and out is None: return (np.<a>(*inputs, **kwargs), np.<b>(*inputs, **kwargs))`:\n"
+                    "only for the method `__call__`, only without `out=`, and every component is called with the caller's operands and keywords\n"
+                    "unchanged and in the caller's order (the extractor refuses any other argument list) -/")
+        body.append("def ufuncMultiOutSplit : List (Name × List Name) := [" + ", ".join(
+            f"({nm(u)}, {lean_list(parts)}) /- {u} -> {', '.join(parts)} -/" for u, parts in ufi["multi_split"]) + "]\n")
+        body.append("/-- the first argument of the trial call on the out= path is built with `np.ones` (true) or `np.empty` (false: uninitialised memory) -/")
+        body.append(f"def ufuncOutTrialOnes : Bool := {'true' if ufi['trial_ones'] else 'false'}\n")
+        body.append("/-- the statements of the `if out is not None:` block after the computation, in source order -/")
+        body.append("def ufuncOutSteps : List OutStep := [" + ", ".join("." + st for st in ufi["out_steps"]) + "]\n")
+        multi_out = sorted(n for n in dir(np) if isinstance(getattr(np, n), np.ufunc) and getattr(np, n).nout != 1)
+        multi_out = sorted({getattr(np, n).__name__ for n in multi_out})
+        body.append("/-- NumPy's ufuncs with more than one result (`ufunc.nout != 1`) -/")
+        body.append(f"def multiOutUfuncs : List Name := {lean_list(multi_out)}\n")
+        body.append("/-- what `x.__array_namespace__()` returns -/")
+        body.append(f"def arrayNamespaceModule : Name := {nm(ans)}\n")
+        body.append("/-- NumPy's operator mixin: special method, ufunc it calls, role (forward: ufunc(self, other); reflected: ufunc(other, self)) -/")
+        body.append("def operatorTable : List (Name × Name × Name) := [\n  " + ",\n  ".join(
+            f"({nm(a)}, {nm(b)}, {nm(c)}) /- {a} {b} {c} -/" for a, b, c in operators) + "]\n")
+        body.append("/-- ufuncs with a core signature (generalised ufuncs): `__array_ufunc__` hands them to `__array_function__` -/")
+        body.append(f"def gufuncs : List Name := {lean_list(gufuncs)}\n")
+        body.append("/-- every NumPy function that dispatches through `__array_function__`: public spelling, module path of `func.__module__`\n"
+                    "(after the leading `numpy`), `func.__name__` -/")
+        body.append("def numpyFunctions : List (Name × List Name × Name) := [\n  " + ",\n  ".join(
+            f"({nm(p)}, {lean_list(m[1:])}, {nm(n)}) /- {p} -/" for p, m, n in np_funcs) + "]\n")
+        body.append("/-- NumPy's own signature (the caller's vocabulary) of the functions the library answers to: public spelling, module path,\n"
+                    "`__name__`, signature -/")
+        body.append("def numpySigs : List (Name × List Name × Name × Sig) := [\n  " + ",\n  ".join(
+            f"({nm(p)}, [], {nm(n)}, {lean_sig(sg)}) /- {p}{describe_sig(sg)} -/" for p, n, sg in np_sigs) + "]\n")
+        # names the model / the theorems mention
+        wanted = FIXED + ["numpy.var", "numpy.std", "numpy.sum", "numpy.clip", "numpy.median", "numpy.transpose", "numpy.shape", "numpy.ndim",
+                          "var", "std", "sum", "ddof", "correction", "axis", "matmul", "dot", "clip", "add", "__matmul__", "__rmatmul__",
+                          "__add__", "__radd__", "SparseArray.var", "_common.matmul", "shape", "ndim", "transpose", "None",
+                          "divmod", "floor_divide", "remainder", "modf", "frexp", "__divmod__", "__rdivmod__", "__floordiv__", "__rfloordiv__",
+                          "__mod__", "__rmod__"]
+        for w in wanted:
+            IN(w)
+        consts = []
+        seen = set()
+        for w in wanted:
+            ident = "nm_" + "".join(ch if ch.isalnum() else "_" for ch in w.replace("**", "starstar"))
+            if ident in seen:
+                continue
+            seen.add(ident)
+            consts.append(f"def {ident} : Name := {IN(w)}  -- {w}")
+        return [PRELUDE, "/-- id ↦ text -/", "def names : List String := [\n  " + ",\n  ".join(
+            ", ".join(lean_str(x) for x in IN.names[i:i + 8]) for i in range(0, len(IN.names), 8)) + "]\n",
+            "\n".join(consts) + "\n"] + body
+
+    # interned names are numbered in SORTED order (after the fixed ones): render once to learn which names occur, then again
+    global IN
+    IN = Interner()
+    render()
+    occurring = sorted(set(IN.names) - set(FIXED))
+    IN = Interner()
+    for f in FIXED + occurring:
+        IN(f)
+    out = render()
     names = ["dispatchTable", "namespaceAttrs", "classMro", "instanceAttrs", "operatorTable", "numpyFunctions", "numpySigs"] if not refusals else []
     return {"Dispatch.lean": ("\n".join(out), names, refusals)}
 
